@@ -117,6 +117,12 @@ Section AnyKernel.
   Theorem C20_estimate_is_weighted_kernel_sum : forall s q,
     est_num K s q = wksum K q (ds_iterate s).
   Proof. exact (estimate_weighted_sum K). Qed.
+
+  (* -- the retained points are input points (a compaction only moves or drops points), and every accepted input has
+        the configured dimension -- *)
+  Theorem C20_retained_points_are_inputs : forall h, valid h ->
+    forall p w, In (p, w) (ds_iterate (eval K h)) -> In p (inputs K h) /\ Z.of_nat (length p) = d_dim (eval K h).
+  Proof. exact (retained_points_are_inputs K). Qed.
 End AnyKernel.
 
 (* ---- non-vacuity and witnesses (concrete kernels of the harness) ---- *)
@@ -172,3 +178,4 @@ Print Assumptions C20_estimate_nonneg.
 Print Assumptions C20_estimate_defined.
 Print Assumptions C20_estimate_refused_iff.
 Print Assumptions C20_estimate_is_weighted_kernel_sum.
+Print Assumptions C20_retained_points_are_inputs.
